@@ -1,0 +1,79 @@
+// Verification hooks (compiled only with `--cfg hotstuff_verif`): re-exports of private types,
+// an event sink fed by `Core`, and a `SystemTime` shim running on the tokio clock.
+pub use crate::aggregator::Aggregator;
+pub use crate::consensus::{ConsensusMessage, Round};
+pub use crate::error::{ConsensusError, ConsensusResult};
+pub use crate::leader::LeaderElector;
+pub use crate::messages::{Block, Timeout, Vote, QC, TC};
+use crypto::{Digest, PublicKey};
+use std::sync::RwLock;
+
+/// What `Core` is about to handle.
+#[derive(Clone, Debug)]
+pub enum Input {
+    Propose { digest: Digest, round: Round, author: PublicKey },
+    Vote { hash: Digest, round: Round, author: PublicKey },
+    Timeout { round: Round, author: PublicKey, high_qc_round: Round },
+    TC { round: Round },
+    Timer,
+}
+
+#[derive(Clone, Debug)]
+pub enum Event {
+    /// A handler starts (the loop-back path shows up as `Process` without a `Begin`).
+    Begin { node: PublicKey, input: Input },
+    /// `process_block` starts for this block.
+    Process { node: PublicKey, digest: Digest, round: Round },
+    /// The main loop finished one input; state after it.
+    End {
+        node: PublicKey,
+        error: Option<String>,
+        round: Round,
+        last_voted_round: Round,
+        last_committed_round: Round,
+        high_qc_round: Round,
+    },
+    Vote { node: PublicKey, hash: Digest, round: Round },
+    Timeout { node: PublicKey, round: Round, high_qc: QC },
+    Round { node: PublicKey, from: Round, to: Round },
+    QC { node: PublicKey, qc: QC },
+    TC { node: PublicKey, tc: TC },
+    Commit { node: PublicKey, block: Block },
+    Make { node: PublicKey, round: Round, qc: QC, tc: Option<TC> },
+}
+
+type Sink = Box<dyn Fn(Event) + Send + Sync>;
+static SINK: RwLock<Option<Sink>> = RwLock::new(None);
+
+pub fn set_sink(sink: Option<Sink>) {
+    *SINK.write().unwrap_or_else(|e| e.into_inner()) = sink;
+}
+
+pub fn emit(event: Event) {
+    if let Some(sink) = SINK.read().unwrap_or_else(|e| e.into_inner()).as_ref() {
+        sink(event)
+    }
+}
+
+/// Same call shape as `std::time::{SystemTime, UNIX_EPOCH}`, but on the (pausable) tokio clock.
+pub struct SystemTime(std::time::Duration);
+pub struct UnixEpoch;
+pub const UNIX_EPOCH: UnixEpoch = UnixEpoch;
+
+impl SystemTime {
+    pub fn now() -> Self {
+        static ANCHOR: std::sync::OnceLock<std::time::Instant> = std::sync::OnceLock::new();
+        let anchor = *ANCHOR.get_or_init(std::time::Instant::now);
+        let now = tokio::time::Instant::now().into_std();
+        let base = std::time::Duration::from_secs(1_000_000_000);
+        Self(if now >= anchor {
+            base + (now - anchor)
+        } else {
+            base - (anchor - now)
+        })
+    }
+
+    pub fn duration_since(&self, _epoch: UnixEpoch) -> Result<std::time::Duration, std::convert::Infallible> {
+        Ok(self.0)
+    }
+}
